@@ -7,8 +7,8 @@ pysam.AlignedSegment reads with MD tags; fragments are added with the real Molec
 Space (the vote is per reference position, so it factorises):
  (i)  position level: every WORD (ordered sequence = insertion history) of <= N fragments over the kinds of
       contribution a fragment can make at a probed position (not covering / single-end A / single-end C /
-      N / mates agree / R1 wins on quality / R2 wins on quality / mates tie at equal quality, thorough adds
-      N-vs-base mate conflicts); all words = all multisets x all their distinct permutations.  For every
+      N / mates agree / R1 wins on quality / R2 wins on quality / mates tie at equal quality; with a smaller
+      N additionally N-vs-base mate conflicts and a third base); all words = all multisets x all their distinct permutations.  For every
       multiset also the fragment-doubled molecule (appended and interleaved).
  (ii) window level: 3 adjacent positions, <= 3 fragments, every covered sub-window for R1 and R2 (hence all
       dove-tail shapes), mismatch at the first / last base of either mate, three quality relations, both
